@@ -5,7 +5,7 @@ import (
 	"go/token"
 	"go/types"
 
-	"golang.org/x/tools/go/ssa"
+	"gclverify/xt/ssa"
 )
 
 func init() {
